@@ -43,6 +43,12 @@ func (in *Interp) inputVar(name string, w int) *Term {
 	}
 	t := in.ts.Var(full, w)
 	in.inputs = append(in.inputs, t)
+	if w > 0 && w < 64 {
+		// trivially true over bit-vectors; makes the variable's range explicit for integer-mode queries
+		half := uint64(1) << uint(w-1)
+		ts := in.ts
+		in.pushPC(ts.And(ts.SLE(ts.BV(-half, w), t), ts.SLE(t, ts.BV(half-1, w))))
+	}
 	return t
 }
 
